@@ -221,6 +221,12 @@ class Adapter:
     def r_set_node_metadata(self, h, n, meta):
         h.set_node_metadata(n, meta)
 
+    def r_get_node_metadata(self, h, n):
+        return h.get_node_metadata(n)
+
+    def r_get_edge_metadata(self, h, e):
+        raise NotImplementedError
+
     def observe(self, h, U, probes, real):
         raise NotImplementedError
 
@@ -336,7 +342,7 @@ def resolve(ad, aop, model, U):
         if aop["metas"] is not None:
             c["metas"] = (aop["metas"] + [{} for _ in c["es"]])[: len(c["es"])]
     elif k in ("remove_edge", "set_weight", "set_edge_metadata", "set_attr_edge",
-               "remove_attr_edge"):
+               "remove_attr_edge", "rmw_edge"):
         c["e"] = _edge_from(ad, aop["edge"], model, U)
         for f in ("w", "meta", "field", "value"):
             if f in aop:
@@ -379,7 +385,7 @@ def resolve(ad, aop, model, U):
         if (c["keep"] and ad.empty_shrink_excluded and all(n in model.nodes for n in out)
                 and model.would_empty(out)):
             return None
-    elif k in ("set_node_metadata", "set_attr_node", "remove_attr_node"):
+    elif k in ("set_node_metadata", "set_attr_node", "remove_attr_node", "rmw_node"):
         c["n"] = _node_from(aop["node"], model, U, ad)
         for f in ("meta", "field", "value"):
             if f in aop:
@@ -458,7 +464,7 @@ def apply_model(ad, m, c):
             return False
         m.edges[key][1] = dc(c["meta"])
         return True
-    if k == "set_attr_node":
+    if k in ("set_attr_node", "rmw_node"):
         if c["n"] not in m.nodes:
             return False
         m.nodes[c["n"]][c["field"]] = dc(c["value"])
@@ -468,7 +474,7 @@ def apply_model(ad, m, c):
             return False
         del m.nodes[c["n"]][c["field"]]
         return True
-    if k == "set_attr_edge":
+    if k in ("set_attr_edge", "rmw_edge"):
         key = ad.key_of(c["e"])
         if key not in m.edges:
             return False
@@ -522,6 +528,15 @@ def apply_real(ad, h, c):
         ad.r_set_node_metadata(h, c["n"], dc(c["meta"]))
     elif k == "set_edge_metadata":
         ad.r_set_edge_metadata(h, c["e"], dc(c["meta"]))
+    elif k == "rmw_node":
+        # read-modify-write: the dict a getter returned is edited and handed back to the setter
+        md = ad.r_get_node_metadata(h, c["n"])
+        md[c["field"]] = dc(c["value"])
+        ad.r_set_node_metadata(h, c["n"], md)
+    elif k == "rmw_edge":
+        md = ad.r_get_edge_metadata(h, c["e"])
+        md[c["field"]] = dc(c["value"])
+        ad.r_set_edge_metadata(h, c["e"], md)
     elif k == "set_attr_node":
         h.set_attr_to_node_metadata(c["n"], c["field"], dc(c["value"]))
     elif k == "remove_attr_node":
@@ -682,7 +697,7 @@ def check_history(ad, case, ctx):
     n_reject = 0
     for step, aop in enumerate(case["ops"]):
         if (cur_obs is None and aop["op"] in ("set_attr_node", "remove_attr_node", "set_attr_edge",
-                                              "remove_attr_edge")
+                                              "remove_attr_edge", "rmw_node", "rmw_edge")
                 and (any(isinstance(m, Alt) for m in model.nodes.values())
                      or any(isinstance(r[1], Alt) for r in model.edges.values()))):
             # an in-place edit of a metadata dict whose content is one of several allowed
@@ -704,7 +719,7 @@ def check_history(ad, case, ctx):
                         ns.append(n)
             ad.recent_recs, ad.recent_nodes = recs, ns
         elif c["op"] not in ("set_attr_node", "set_attr_edge", "remove_attr_node",
-                             "remove_attr_edge"):
+                             "remove_attr_edge", "rmw_node", "rmw_edge"):
             ad.recent_recs, ad.recent_nodes = [], []
         n_probes = len(probes)
         if "e" in c:
@@ -864,7 +879,7 @@ KINDS = (["add_edge"] * 8 + ["add_edges"] * 3 + ["add_node"] * 2 + ["add_nodes"]
          + ["remove_edge"] * 4 + ["remove_edges"] * 2 + ["remove_node"] * 4 + ["remove_nodes"] * 2
          + ["set_weight"] * 2 + ["set_node_metadata", "set_edge_metadata", "set_attr_node",
             "remove_attr_node", "set_attr_edge", "remove_attr_edge", "set_attr_hg",
-            "set_hg_metadata"]
+            "set_hg_metadata", "rmw_node", "rmw_edge"]
          + ["copy"])
 
 
@@ -927,6 +942,10 @@ def op_strategy(draw, weighted, kinds, t_strategy=None, clear=True):
         op.update(node=draw(node_spec()), field=draw(field), value=draw(S.json_values))
     elif k == "remove_attr_node":
         op.update(node=draw(node_spec()), field=draw(field), fpick=draw(sel))
+    elif k == "rmw_node":
+        op.update(node=draw(node_spec()), field=draw(field), value=draw(S.json_values))
+    elif k == "rmw_edge":
+        op.update(edge=draw(e_exist), field=draw(field), value=draw(S.json_values))
     elif k == "set_attr_edge":
         op.update(edge=draw(e_exist), field=draw(field), value=draw(S.json_values))
     elif k == "remove_attr_edge":
